@@ -7,7 +7,7 @@ import concurrent.futures as cf
 from .common import COQDIR, WORK
 
 HEADER = """From Coq Require Import Floats List NArith ZArith Bool.
-From Cfr.theories Require Import Num FInst Tree Strat Eval Exec%s.
+From Cfr.theories Require Import Num FInst Tree Strat Eval Solve Exec%s.
 Import ListNotations.
 Open Scope float_scope.
 Set Printing Width 1000000.
